@@ -37,6 +37,7 @@ var Prop = &engine.Prop{
 	Kinds: []engine.Kind{
 		{Name: "sched", Quick: 12000, Thorough: 800000, Fn: schedCase},
 		{Name: "stress", Quick: 16, Thorough: 960, Repeat: 20, Fn: stressCase},
+		{Name: "many-holders", Quick: 24, Thorough: 480, Fn: manyHoldersCase},
 	},
 	Floors: map[string]int64{
 		"pending_observations": 500,
@@ -677,4 +678,56 @@ func stressCase(k *engine.Case) {
 	if n := l.Entries(); n != 0 {
 		k.Fail("residue", "stress: everything released, but the locker keeps %d per-key entrie(s)", n)
 	}
+}
+
+// ---------------------------------------------------------------- very many holders of one key
+
+// manyHoldersCase: tens of thousands of read locks on one key (more than fit a 16-bit
+// counter), one of them released, then a writer arrives: it must wait until the last reader
+// has left, and afterwards nothing may be left in the locker.
+func manyHoldersCase(k *engine.Case) {
+	r := k.R
+	l := newLocker(r)
+	n := []int{300, 40000, 65537, 65600, 70000, 131100}[r.Intn(6)]
+	key := r.Intn(4)
+	k.Logf("locker=%s: %d read locks on key %d, one released, then a writer", l.Name(), n, key)
+	k.Nontrivial()
+	k.C.Max("holders_of_one_key", int64(n))
+	d := engine.NewDriver(Q, k)
+	for i := 0; i < n; i++ {
+		l.RLock(key)
+	}
+	l.RUnlock(key)
+	w := d.Spawn("Lock", func() any { l.Lock(key); return nil })
+	if !d.Quiesce() {
+		return
+	}
+	if w.Done() {
+		k.Fail("exclusion", "%d goroutine-independent read locks are held on key %d (%d taken, 1 released) and a writer was admitted beside them", n-1, key, n)
+		return
+	}
+	other := d.Spawn("Lock(other key)", func() any { l.Lock(key + 5); l.Unlock(key + 5); return nil })
+	if !d.Quiesce() {
+		return
+	}
+	if !other.Done() {
+		k.Fail("independence", "a lock on an unrelated key is blocked while key %d has %d readers and a waiting writer", key, n-1)
+		return
+	}
+	for i := 0; i < n-1; i++ {
+		l.RUnlock(key)
+	}
+	if !d.Quiesce() {
+		return
+	}
+	if !w.Done() {
+		k.Fail("deadlock", "all %d read locks on key %d were released but the waiting writer is still blocked: %v", n, key, Q.Describe())
+		return
+	}
+	l.Unlock(key)
+	d.Join()
+	if e := l.Entries(); e != 0 {
+		k.Fail("residue", "everything released, but the locker keeps %d per-key entrie(s)", e)
+	}
+	k.Count("many_holder_rounds", 1)
 }
